@@ -588,6 +588,11 @@ def r_splitarith(prog, tier):
                   'accepted and quietly changed instead of being rejected' % unparse(val)[:50]
         obs.append(Ob('R-SPLITARITH', f.fq, 'part size `%s` is an exact non-negative integer' % unparse(val)[:60], ok, why,
                       construct='split-%s:%s' % (what, unparse(val)), line=n.lineno))
+        if what == 'store' and unparse(st.targets[0].slice) == '%s.index(max(%s))' % (P, P):
+            obs.append(Ob('R-SPLITARITH', f.fq, 'the remainder is ADDED to the largest part', False,
+                          '`%s` replaces the size of the largest part by `%s` instead of adding to it: the sizes no longer follow the '
+                          'specification and no longer sum to the number of trees' % (unparse(st)[:60], unparse(val)[:20]),
+                          construct='split-remainder-store', line=n.lineno))
         if what == 'add':
             # the remainder is handed out whatever the specification looks like: a test of the specification text on the way
             # here, with a way around it that neither stores a part nor raises, leaves trees that belong to no part
@@ -932,8 +937,27 @@ def r_state(prog, tier):
                 if isinstance(src, ast.Name):
                     d = [v for (_, v) in name_defs(f, src.id) if isinstance(v, ast.AST)]
                     src = d[0] if len(d) == 1 else src
-                if not (isinstance(src, (ast.Set, ast.SetComp)) or (isinstance(src, ast.Call) and unparse(src.func) in ('set', 'frozenset'))):
+                def _setlike(e):
+                    if isinstance(e, (ast.Set, ast.SetComp)) or (isinstance(e, ast.Call) and unparse(e.func) in ('set', 'frozenset')):
+                        return True
+                    if isinstance(e, ast.BinOp) and isinstance(e.op, (ast.BitAnd, ast.BitOr, ast.Sub, ast.BitXor)):
+                        keys = lambda x: isinstance(x, ast.Call) and isinstance(x.func, ast.Attribute) and x.func.attr == 'keys'
+                        return _setlike(e.left) or _setlike(e.right) or (keys(e.left) and keys(e.right))
+                    return False
+                if not _setlike(src):
                     continue
+                # text added to a node field piece by piece: the pieces come in the order of the set, and a set of strings
+                # is ordered by string hashes, which differ from one process to the next
+                grows = [x for b in n.body for x in ast.walk(b) if isinstance(x, ast.AugAssign) and isinstance(x.op, ast.Add)
+                         and isinstance(x.target, ast.Subscript) and isinstance(x.target.value, ast.Attribute)
+                         and x.target.value.attr == 'data']
+                if grows:
+                    g7 += 1
+                    obs.append(Ob('R-STATE/G7', f.fq, 'what is added to a node field does not come in set (hash) order: `for %s in %s`'
+                                  % (unparse(n.target), unparse(n.iter)[:50]), False,
+                                  '`%s` appends to a field inside a loop over the set `%s`: when two elements touch the same node the '
+                                  'pieces are joined in hash order - for strings that order changes with every run of the program'
+                                  % (unparse(grows[0])[:50], unparse(src)[:50]), construct='g7-text:' + f.fq, line=n.lineno))
                 body_txt = [unparse(b) for b in n.body]
                 moves = any('.children.remove(' in t or '.children.append(' in t or '.children.insert(' in t or '.parent = ' in t
                             for t in body_txt)
